@@ -115,28 +115,28 @@ theorem decodeFormat0_erase (b : Bytes) : erase (decodeFormat0 b) = unsite (Sfnt
     show erase (if _ then _ else _) = unsite (if _ then _ else _)
     split <;> rfl
 
-/-- `Format0.Lookup(r)` is safe exactly for `r ≥ 0`: on the 256-byte array of a decoded format 0
-subtable every non-negative rune gives a glyph … -/
-theorem Format0_lookup_safe (d : Bytes) (hd : d.length = 256) (r : Int) (hr : 0 ≤ r) :
-    (lookup0 d r).noPanic := by
+/-- `Format0.Lookup(r)` (as repaired) returns a glyph for EVERY rune, negative ones included, on
+the 256-byte array of a decoded format 0 subtable -/
+theorem Format0_lookup_safe (d : Bytes) (hd : d.length = 256) (r : Int) : (lookup0 d r).noPanic := by
   unfold lookup0
   split
   · exact True.intro
-  · rename_i hle
-    match r, hr, hle with
-    | .ofNat n, _, hle =>
-      have hn : n < d.length := by
-        have : ¬ ((n : Int) > 255) := hle
-        omega
-      show ((idx _ d n) >>= _).noPanic
-      rw [idx_ok _ d n hn]
-      exact True.intro
+  · rename_i hg
+    have hn : r.toNat < d.length := by omega
+    show ((idx _ d r.toNat) >>= _).noPanic
+    rw [idx_ok _ d r.toNat hn]
+    exact True.intro
 
-/-- … and every negative rune passes the guard `r > 255` and panics at `cmap.Data[r]` (the
-finding reported for format0.go:54) -/
-theorem Format0_lookup_negative_panics (d : Bytes) (r : Int) (hr : r < 0) :
-    lookup0 d r = .panic "format0.go:54#cmap.Data[r]" := by
+/-- negative runes give glyph 0 -/
+theorem lookup0_negative (d : Bytes) (r : Int) (hr : r < 0) : lookup0 d r = .ok 0 := by
   unfold lookup0
+  rw [if_pos (Or.inl hr)]
+
+/-- the finding (C02-format0-lookup-negative) about the code BEFORE the repair: every negative
+rune passed the guard `r > 255` and panicked at `cmap.Data[r]` -/
+theorem Format0_lookup_negative_panics (d : Bytes) (r : Int) (hr : r < 0) :
+    lookup0Old d r = .panic "format0.go:54#cmap.Data[r]" := by
+  unfold lookup0Old
   rw [if_neg (by omega)]
   match r, hr with
   | .negSucc _, _ => rfl
@@ -146,10 +146,10 @@ theorem lookup0_erase (d : Bytes) (hd : d.length = 256) (n : Nat) :
     lookup0 d (n : Int) = .ok (SfntV.Cmap06.lookup0 d n) := by
   unfold lookup0 SfntV.Cmap06.lookup0
   by_cases h : n > 255
-  · rw [if_pos (by omega), if_pos h]
+  · rw [if_pos (Or.inr (by omega)), if_pos h]
   · rw [if_neg (by omega), if_neg h]
-    show ((idx _ d n) >>= _) = _
-    rw [idx_ok _ d n (by omega), ok_bind]
+    show ((idx _ d (n : Int).toNat) >>= _) = _
+    rw [Int.toNat_natCast, idx_ok _ d n (by omega), ok_bind]
     show Outcome.ok _ = _
     rw [List.getD_eq_getElem?_getD, List.getElem?_eq_getElem (by omega : n < d.length)]
     rfl
@@ -1300,7 +1300,8 @@ example : get (decoders (fun _ _ => .err "x") (fun _ _ => .err "x"))
 example : decodeFormat0 ([0,0,1,6,0,0] ++ List.replicate 256 7)
     = .ok (List.replicate 256 7, ⟨256, 256⟩) := by decide +kernel
 
-example : lookup0 (List.replicate 256 7) 65 = .ok 7 := by decide +kernel
+example : lookup0 (List.replicate 256 7) 65 = .ok 7 ∧ lookup0 (List.replicate 256 7) (-1) = .ok 0 := by
+  decide +kernel
 
 /-- with the excess 0x0000 word that some fonts carry -/
 example : decodeFormat6 id [0,6,0,14,0,0, 0,65,0,1, 0,7, 0,0] = .ok ([(65, 7)], ⟨3, 2⟩) := by
